@@ -77,13 +77,15 @@ Lemma run_input_journal f now s i s1 p :
   InvT s -> run_input f now s i = Done s1 p -> map view (s_txs s1) = replay_payload (map view (s_txs s)) p.
 Proof.
   intros HI.
-  destruct i as [ps ts ref md amd force | id force at_eff rmeta | [a|id] md | [a|id] k]; simpl.
-  - destruct ps as [|q ps']; [discriminate|].
+  script_split i.
+  { simpl. unfold create_tx. destruct ps as [|q ps']; [discriminate|].
     destruct (feasible force (s_vols s) (q :: ps')); simpl; [|discriminate].
     destruct (commit_transaction f now s (q :: ps') md ts ref) as [s0 [t|]] eqn:E; [|discriminate].
     intros H; inversion H; subst; clear H. simpl.
     destruct (upsert_tx_accounts_frame f now s0 t amd) as (_ & E2 & _). rewrite E2.
-    apply commit_some in E. destruct E as (Htx & _). rewrite Htx, map_app. reflexivity.
+    apply commit_some in E. destruct E as (Htx & _). rewrite Htx, map_app. reflexivity. }
+  destruct i as [ps ts ref md amd force | id force at_eff rmeta | [a|id] md | [a|id] k | ps ts ref md amd force smd samd];
+    [apply Hc | | | | | | script_bullet Hc]; simpl.
   - destruct (find_tx (s_txs s) id) as [t|] eqn:F; [|discriminate].
     destruct (t_rev t); [discriminate|].
     match goal with |- context [match ?c with RCOk => _ | RCInsufficient => _ | RCPanic => _ end] => destruct c end; try discriminate.
